@@ -81,3 +81,16 @@ func (m *Machine) cpathSym(s *SymStr, op string) string {
 	}
 	return string(bs)
 }
+
+func init() {
+	// (url.EscapeError).Error() = "invalid URL escape " + strconv.Quote(e).
+	// Quoting symbolic bytes forks on every printable-class test of strconv;
+	// the text of this error message is never inspected by kraken, so for a
+	// symbolic operand the quoted part is replaced by a placeholder.
+	regIfAbsent("(net/url.EscapeError).Error", func(m *Machine, fr *frame, a []Value) Value {
+		if s, ok := a[0].(string); ok {
+			return "invalid URL escape " + fmt.Sprintf("%q", s)
+		}
+		return "invalid URL escape \"<symbolic>\""
+	})
+}
